@@ -68,6 +68,7 @@ RULES = {
     "NAMECONF": simplify.rule_nameconf,
     "DELGUARD": simplify.rule_delguard,
     "WINCOMPOSE": windows.rule_wincompose,
+    "ANNOTSYNC": windows.rule_annotsync,
     "MODGUARD": simplify.rule_modguard,
     "DIVACCOUNT": simplify.rule_divaccount,
     "CFGMOD": provenance.rule_cfgmod,
